@@ -1,6 +1,7 @@
 package props
 
 import (
+	"context"
 	"fmt"
 	"net/netip"
 	"net/url"
@@ -208,7 +209,33 @@ func TestC11_RedirectTargets(t *testing.T) {
 	selfTest(t)
 	rapid.Check(t, func(rt *rapid.T) {
 		h.ClockReset()
-		w := h.NewWorld(h.Spec{RefreshScopes: []string{}})
+		// "... unless configured otherwise": the operator's transport-security rule for code issuance and PAR
+		checker := rapid.SampledFrom([]string{"default", "default", "strict", "permissive"}).Draw(rt, "redirectSecureChecker")
+		w := h.NewWorld(h.Spec{RefreshScopes: []string{}, Mutate: func(c *fosite.Config) {
+			switch checker {
+			case "strict":
+				c.RedirectSecureChecker = fosite.IsRedirectURISecureStrict
+			case "permissive":
+				c.RedirectSecureChecker = func(context.Context, *url.URL) bool { return true }
+			}
+		}})
+		h.Label("checker=" + checker)
+		// reference for the configured rule (documented on IsRedirectURISecure / IsRedirectURISecureStrict)
+		insecure := func(raw string) bool {
+			tu, err := url.Parse(raw)
+			if err != nil {
+				return false
+			}
+			hn := tu.Hostname()
+			local := hn == "localhost" || strings.HasSuffix(hn, ".localhost") || isLoopbackLiteral(hn)
+			switch checker {
+			case "permissive":
+				return false
+			case "strict":
+				return !(tu.Scheme == "https" || (tu.Scheme == "http" && local))
+			}
+			return tu.Scheme == "http" && !local
+		}
 		nreg := rapid.IntRange(1, 4).Draw(rt, "nRegistered")
 		var reg []uriParts
 		var regStr []string
@@ -418,12 +445,13 @@ func TestC11_RedirectTargets(t *testing.T) {
 		}
 		// plain http only on loopback / localhost for the code flow
 		if redirected && res.Code != "" && rtype == "code" {
-			if tu, err := url.Parse(target); err == nil && tu.Scheme == "http" {
-				hn := tu.Hostname()
-				if !(hn == "localhost" || strings.HasSuffix(hn, ".localhost") || isLoopbackLiteral(hn)) {
-					h.Violate(rt, "C11/code-to-plain-http", "authorization code delivered to a plain-http non-local target: %s", desc)
-				}
+			if insecure(target) {
+				h.Violate(rt, "C11/code-to-plain-http", "authorization code delivered to a target the configured transport rule (%s) rejects: %s", checker, desc)
 			}
+		}
+		// ... and the configured rule, not the built-in one, is what decides
+		if checker == "permissive" && rtype == "code" && inject == "none" && qual == h.Yes && res.Code == "" && strings.Contains(strings.ToLower(res.Err.Hint), "insecure") {
+			h.Violate(rt, "C11/configured-transport-rule-ignored", "the operator's rule accepts every target, but the request was refused as insecure: %s", desc)
 		}
 		// the same request through PAR
 		if inject == "none" && rapid.IntRange(0, 2).Draw(rt, "viaPAR") == 0 {
@@ -439,17 +467,15 @@ func TestC11_RedirectTargets(t *testing.T) {
 				h.Label("par-push-without-redirect_uri")
 			}
 			pr := w.PAR(f, w.BasicFor("c11"))
+			if checker == "permissive" && pr.RequestURI == "" && qual == h.Yes && strings.Contains(strings.ToLower(pr.Err.Hint), "insecure") {
+				h.Violate(rt, "C11/configured-transport-rule-ignored", "the operator's rule accepts every target, but the push was refused as insecure: %s", desc)
+			}
 			if pr.RequestURI != "" {
 				if qual == h.No && !pushOmits {
 					h.Violate(rt, "C11/par-accepted-unqualified-redirect", "PAR accepted: %s", desc)
 				}
-				if sent && !pushOmits {
-					if tu, err := url.Parse(reqStr); err == nil && tu.Scheme == "http" {
-						hn := tu.Hostname()
-						if !(hn == "localhost" || strings.HasSuffix(hn, ".localhost") || isLoopbackLiteral(hn)) {
-							h.Violate(rt, "C11/par-accepted-plain-http", "PAR accepted a plain-http non-local redirect target: %s", desc)
-						}
-					}
+				if sent && !pushOmits && insecure(reqStr) {
+					h.Violate(rt, "C11/par-accepted-plain-http", "PAR accepted a redirect target the configured transport rule (%s) rejects: %s", checker, desc)
 				}
 				uq := url.Values{"client_id": {"c11"}, "request_uri": {pr.RequestURI}}
 				if rapid.Bool().Draw(rt, "frontChannelRedirect") {
